@@ -179,9 +179,9 @@ struct Out {
 
 // The contract is discharged in three case harnesses whose union is every (state, key id) pair:
 //   _initial: nothing accepted yet;  _advance: k > max_seen (window shifts);  _within: k <= max_seen (no shift).
-// They take 60-185 s each on the (loaded, 16 cores / load 20-60) development machine and are therefore thorough-tier.
+// They take 60-525 s each on the shared development machine (16 cores, load average 20-60) and are therefore thorough-tier.
 
-//@ harness props=C19 tier=thorough level=full timeout=1200
+//@ harness props=C19 tier=thorough level=full timeout=2400
 //@ fn path::secret::receiver::State::post_authentication
 //@ fn path::secret::receiver::State::pre_authentication
 //@ fn path::secret::receiver::State::new
@@ -212,7 +212,7 @@ fn vq_c19_receiver_post_authentication_initial() {
     kani::cover!(!o.w_seen_old && o.w_seen_new, "reach:witness_is_new_id");
 }
 
-//@ harness props=C19 tier=thorough level=full timeout=1200
+//@ harness props=C19 tier=thorough level=full timeout=2400
 //@ fn path::secret::receiver::State::post_authentication
 //@ fn path::secret::receiver::State::pre_authentication
 // obligations asserted through check_post_authentication / shift_end_model (listed here for the registry):
@@ -245,7 +245,7 @@ fn vq_c19_receiver_post_authentication_advance() {
     kani::cover!(!o.w_seen_old && o.w_seen_new, "reach:witness_is_new_id");
 }
 
-//@ harness props=C19 tier=thorough level=full timeout=1200
+//@ harness props=C19 tier=thorough level=full timeout=2400
 //@ fn path::secret::receiver::State::post_authentication
 //@ fn path::secret::receiver::State::pre_authentication
 // obligations asserted through check_post_authentication / shift_end_model (listed here for the registry):
